@@ -208,6 +208,7 @@ func dischargeBounds(p *Program, ob BoundsOb) (bool, string) {
 		return true, "unreachable code"
 	}
 	d := newDBM(g, f, assumedFacts[ob.Fn.Name])
+	d.sums = true
 	info := g.Info
 	switch x := ob.Node.(type) {
 	case *ast.IndexExpr:
@@ -499,6 +500,10 @@ func (p *Program) usedAsValue(fi *FuncInfo) bool {
 	used := false
 	for _, other := range p.SortedFuncs() {
 		if other.Decl.Body == nil || used {
+			continue
+		}
+		// an unexported function can only be named inside its own package
+		if fi.Obj != nil && !fi.Obj.Exported() && other.Pkg != fi.Pkg {
 			continue
 		}
 		oinfo := other.Pkg.TypesInfo
